@@ -91,15 +91,34 @@ class Baton:
             else:
                 self.done.set()
 
-    def run(self, bodies, first=0, wall_cap=60.0):
-        """runs the bodies, one per thread, under the baton discipline; returns False on
-        a wall-clock stall (harness problem, never a verdict)"""
+    def run(self, bodies, first=0, wall_cap=60.0, block_s=None):
+        """runs the bodies, one per thread, under the baton discipline; returns True when all are done, False on
+        a wall-clock stall (harness problem, never a verdict) and - if block_s is given - 'blocked' when the thread
+        that holds the baton has not reached a single pre-emption point for block_s seconds (it waits for something
+        only a parked thread could release: under this discipline that never ends)"""
+        import time
         threads = [threading.Thread(target=self._worker, args=(i, b), daemon=True) for i, b in enumerate(bodies)]
         for t in threads:
             t.start()
         self.holder = first
         self.events[first].set()
-        ok = self.done.wait(wall_cap)
+        if block_s is None:
+            ok = self.done.wait(wall_cap)
+        else:
+            ok = False
+            t0 = last = time.monotonic()
+            seen = -1
+            while True:
+                if self.done.wait(0.5):
+                    ok = True
+                    break
+                now = time.monotonic()
+                if self.points != seen:
+                    seen, last = self.points, now
+                elif now - last > block_s:
+                    return 'blocked'
+                if now - t0 > wall_cap:
+                    break
         if ok:
             for t in threads:
                 t.join(5)
